@@ -11,7 +11,7 @@ def vf_jobs(tier):
     nl=2 if q else 3
     for hs in (0,1):
         J.append(Job('F-fetch-hs%d'%hs,'vf/f_fetch.c',defs=['-DENV_BUDGET=%d'%(4 if q else 4),'-DNL=%d'%nl,'-DHS=%d'%hs],cuts={'vorbisfile.c':['_get_next_page','_fetch_headers']},unwind=4+3,unwindset=[('env_fill_page',None,28)],object_bits=12,
-            witnesses=['link changed','position set from a granule position','packet processed','streaming handle']+(['position set at half rate with samples pending'] if hs else []),models=ENV,tags=(['C07','C08','C20'] if hs else ['C03','C07','C09'])+([] if q else ['C03','C09','C08']),
+            witnesses=['link changed','position set from a granule position','packet processed','streaming handle']+(['position set at half rate with samples pending'] if hs else []),models=ENV,tags=(['C07','C08','C20'] if hs else ['C03','C07','C09','C12'])+([] if q else ['C03','C09','C08']),
             functions=['_fetch_and_process_packet','_make_decode_ready','_decode_clear'],bounds='<=%d links, <=%d framing events per call; arbitrary V_vf state; half-rate setting %d'%(nl,4,hs),weight=5,mem_est=11))
     J.append(Job('F-halfrate','vf/f_halfrate.c',defs=['-DNL=3'],cuts={'vorbisfile.c':['ov_pcm_seek']},unwind=5,object_bits=12,
         witnesses=['refused','accepted','re-seek','refusal left the running decoder alone'],models=ENV,tags=['C20','C03'],functions=['ov_halfrate','ov_halfrate_p'],bounds='<=3 links, any subset refusing, any prior state'))
@@ -59,6 +59,6 @@ def vf_jobs(tier):
         functions=['_open_seekable2','_bisect_forward_serialno'],bounds='2 links, header fetch of the second link fails or succeeds',weight=4))
     for nm,d in (('F-prevserial',[]),('F-prevpage',['-DPLAIN'])):
         J.append(Job(nm,'vf/f_prevpage.c',defs=d,cuts={'vorbisfile.c':['_seek_helper','_get_next_page']},unwind=10,unwindset=[('env_fill_page',None,28)],object_bits=12,
-            witnesses=['page found','error under persisting end of data']+([] if d else ["preferred stream's page returned although another stream's page follows it"]),models=ENV+['recurrence (lasso) check in the _seek_helper contract'],tags=['C03','C12','C09','C04'],
+            witnesses=['page found','error under persisting end of data']+([] if d else ["preferred stream's page returned although another stream's page follows it"]),models=ENV+['recurrence (lasso) check in the _seek_helper contract'],tags=['C03','C12','C09','C04','C07'],
             functions=['_get_prev_page_serial' if not d else '_get_prev_page'],bounds='file < 192 KiB (<=3 search chunks), <=5 page fetches before the fault persists'))
     return J
